@@ -306,12 +306,11 @@ def m_strip_suffix(ctx, cty, a):
 @model("core::str::<impl str>::trim_end_matches")
 def m_trim_end_matches(ctx, cty, a):
     s, p = as_sstr(a[0]), pat_sstr(a[1])
-    if s.is_concrete() and p.is_concrete():
-        cs, cp = s.concrete(), p.concrete()
-        while cp and cs.endswith(cp):
-            cs = cs[:-len(cp)]
-        return SStr.lit(cs)
-    raise Inconclusive("trim_end_matches on symbolic")
+    k = len(p)
+    n = len(s)
+    while k and n - k >= 0 and ctx.decide(s.slice(n - k, n).eq(p)):
+        n -= k
+    return s.slice(0, n)
 
 
 @model("core::str::<impl str>::trim", "core::str::<impl str>::trim_end", "core::str::<impl str>::trim_start")
@@ -560,3 +559,94 @@ def m_rsplit_once(ctx, cty, a):
         if ctx.decide(s.slice(i, i + k).eq(p)):
             return opt_some(tup(s.slice(0, i), s.slice(i + k, len(s))))
     return opt_none()
+
+
+@model("std::string::String::truncate")
+def m_string_truncate(ctx, cty, a):
+    s = deref1(a[0])
+    n = ctx.concretize(a[1], "truncate")
+    if n < len(s.s):
+        s.s = s.s.slice(0, n)
+    return unit()
+
+
+@model("std::string::String::insert_str")
+def m_string_insert_str(ctx, cty, a):
+    s = deref1(a[0])
+    i = ctx.concretize(a[1], "insert_str")
+    s.s = s.s.slice(0, i).concat(as_sstr(a[2])).concat(s.s.slice(i, len(s.s)))
+    return unit()
+
+
+@model("std::string::String::pop")
+def m_string_pop(ctx, cty, a):
+    s = deref1(a[0])
+    if len(s.s) == 0:
+        return opt_none()
+    c = s.s.byte_at(len(s.s) - 1)
+    if type(c) is int and c >= 0x80:
+        raise Inconclusive("String::pop on non-ASCII")
+    s.s = s.s.slice(0, len(s.s) - 1)
+    return opt_some(c)
+
+
+@model("core::str::<impl str>::eq_ignore_ascii_case")
+def m_eq_ignore_case(ctx, cty, a):
+    s, p = as_sstr(a[0]), as_sstr(a[1])
+    if s.is_concrete() and p.is_concrete():
+        return s.concrete().lower() == p.concrete().lower()
+    raise Inconclusive("eq_ignore_ascii_case on symbolic")
+
+
+@model("core::str::<impl str>::get")
+def m_str_get(ctx, cty, a):
+    s = as_sstr(a[0])
+    from .models_core import range_bounds
+    lo, hi = range_bounds(ctx, a[1], len(s))
+    if lo > hi or hi > len(s):
+        return opt_none()
+    return opt_some(s.slice(lo, hi))
+
+
+@model("core::str::<impl str>::rfind")
+def m_str_rfind(ctx, cty, a):
+    s, p = as_sstr(a[0]), pat_sstr(a[1])
+    k = len(p)
+    for i in range(len(s) - k, -1, -1):
+        if ctx.decide(s.slice(i, i + k).eq(p)):
+            return opt_some(i)
+    return opt_none()
+
+
+@model("core::str::<impl str>::trim_start_matches")
+def m_trim_start_matches(ctx, cty, a):
+    s, p = as_sstr(a[0]), pat_sstr(a[1])
+    k = len(p)
+    i = 0
+    while k and i + k <= len(s) and ctx.decide(s.slice(i, i + k).eq(p)):
+        i += k
+    return s.slice(i, len(s))
+
+
+@model("core::str::<impl str>::is_char_boundary")
+def m_is_char_boundary(ctx, cty, a):
+    s = as_sstr(a[0])
+    i = ctx.concretize(a[1], "is_char_boundary")
+    if i == 0 or i == len(s):
+        return True
+    if i > len(s):
+        return False
+    c = s.byte_at(i)
+    if type(c) is int:
+        return not (0x80 <= c < 0xC0)
+    return True
+
+
+@model("core::str::<impl str>::repeat", "std::str::<impl str>::repeat")
+def m_str_repeat(ctx, cty, a):
+    s = as_sstr(a[0])
+    n = ctx.concretize(a[1], "repeat")
+    out = SStr()
+    for _ in range(n):
+        out = out.concat(s)
+    return StringObj(out)
